@@ -81,7 +81,7 @@ class Via:
 class World:
     def __init__(self, g, nlisten=1, nback=3, names=None, keep=None, mustrr=None, rcvd=None):
         self.g = g
-        base = 20000 + (g.rint(0, 30000) + PROC_NONCE) % 30000
+        base = 10000 + (g.rint(0, 30000) + PROC_NONCE) % 9990      # below the kernel's ephemeral port range
         self.names = names if names is not None else g.pick([
             "svc.test", "urn:service:sos", "svc.test, urn:service:sos", "alice@svc.test,urn:service:sos",
             "^sip[0-9]+@pbx.test$, svc.test", "tel:112, svc.test", "tel:+15550100, svc.test", "svc.test, a+b@svc.test, tel:+1(555)0100",
